@@ -251,6 +251,67 @@ extern "C" int harness_main() {
   verif_reach("recovered");
   return 0;
 }
+#elif defined(MODE_STATUS)
+// ------------------------------------------------------------------------------------------------ C20: what the real StatusPrinter / LinePrinter put on stdout
+static int count_occurrences(const std::string& hay, const std::string& needle) { int n = 0; size_t p = 0; while ((p = hay.find(needle, p)) != std::string::npos) { n++; p += needle.size(); } return n; }
+extern "C" int harness_main() {
+  ir2c_global_ctors();
+  const Scenario* sc = &kScenarios[SCENARIO];
+  init_tree(sc);
+#ifdef FROM_BUILT
+  full_build(sc); user_operations(sc);
+#endif
+  InvocationOpts o; o.targets = symbolic_targets(sc, "request_target"); o.run.parallelism = 1 + verif_choice("jobs_minus_1", 3);
+  o.real_status = true; o.run.prints_output = true;
+#ifdef WITH_FAILURES
+  o.run.may_fail = true; o.failures_allowed = 1 + verif_choice("keep_going_minus_1", 2);
+#endif
+  verif_stdout_capture();
+  InvocationResult r = invoke(o);
+  VERIF_ASSERT(r.parsed && r.added, "the scenario manifest parses and the targets are known");
+  static char buf[16384]; long n = verif_stdout_copy(buf, sizeof buf); std::string out(buf, (size_t)n);
+#ifdef DEBUG_EVENTS
+  fprintf(stderr, "STDOUT:\n%s\n---\n", out.c_str());
+#endif
+  // every block of command output appears exactly once, whole, directly after the status line of its command
+  for (size_t i = 0; i < g_ref.size(); i++) {
+    if (g_ref[i].phony) continue; const std::string& o0 = g_ref[i].outs[0]; const RefEdge& e = g_ref[i];
+    std::string block = "<<out " + o0 + ">>\npart two of " + o0 + "\n"; std::string errblock = "<<err " + o0 + ">>\n";
+    int c1 = count_occurrences(out, "<<out " + o0 + ">>"), c2 = count_occurrences(out, block), e1 = count_occurrences(out, errblock);
+    VERIF_ASSERT(c1 <= 1 && c1 == c2, "C20: a command's output is shown exactly once, as one contiguous block");
+    VERIF_ASSERT(e1 <= 1, "C20: a failed command's output is shown exactly once");
+    bool printed = false; for (size_t k = 0; k < r.events.size(); k++) if (r.events[k] == "printed " + o0) printed = true;
+    if (c2 == 1) {
+      // the line before the block is this command's status line: "[f/t] <command>"
+      size_t p = out.find(block); size_t ls = p >= 2 ? out.rfind('\n', p - 2) : std::string::npos; std::string line = out.substr(ls == std::string::npos ? 0 : ls + 1, p - (ls == std::string::npos ? 0 : ls + 1));
+      VERIF_ASSERT(line.size() > 0 && line[0] == '[' && line.find("] " + e.command.substr(0, e.command.find(";rspfile="))) != std::string::npos, "C20: command output directly follows the status line of the command that produced it");
+    }
+    if (e1 == 1) {
+      size_t p = out.find(errblock); std::string cmdline = e.command.substr(0, e.command.find(";rspfile=")) + "\n";
+      bool ok = p >= cmdline.size() && out.compare(p - cmdline.size(), cmdline.size(), cmdline) == 0;
+      size_t f = out.rfind("FAILED: [code=", p);
+      ok = ok && f != std::string::npos && out.find(o0 + " ", f) != std::string::npos && out.find(o0 + " ", f) < p;
+      VERIF_ASSERT(ok, "C20: for a failed command the output is preceded by its outputs, exit code and full command line");
+    }
+    (void)printed;
+  }
+  // counters: finished <= total on every status line, started == finished at the end, finished == total after success
+  { size_t p = 0; bool counters = true; int last_f = 0, last_t = 0;
+    while (p < out.size()) { size_t e = out.find('\n', p); if (e == std::string::npos) e = out.size(); std::string line = out.substr(p, e - p); p = e + 1;
+      if (line.size() > 4 && line[0] == '[') { int f = 0, t = 0; size_t q = 1; while (q < line.size() && line[q] >= '0' && line[q] <= '9') f = f * 10 + (line[q++] - '0'); if (q < line.size() && line[q] == '/') { q++; while (q < line.size() && line[q] >= '0' && line[q] <= '9') t = t * 10 + (line[q++] - '0'); if (q < line.size() && line[q] == ']') { counters = counters && f <= t; last_f = f; last_t = t; } } } }
+    VERIF_ASSERT(counters, "C20: progress counters never exceed the total");
+    VERIF_ASSERT(r.status_started == r.status_finished, "C20: every started command is also reported finished");
+    (void)last_f; (void)last_t;
+    VERIF_ASSERT(r.sp_started == r.sp_finished && r.sp_finished <= r.sp_total, "C20: the status counters stay consistent (finished == started <= total)");
+    // (the last printed line may show fewer than the total when a restat command has just pruned the rest of the plan; the counters themselves must agree)
+    if (r.rc == 0 && !r.up_to_date) VERIF_ASSERT(r.sp_finished == r.sp_total, "C20: after a successful build the number finished equals the total");
+  }
+  // nothing is lost: every command that printed has its block in the stream
+  for (size_t k = 0; k < r.events.size(); k++) if (r.events[k].compare(0, 8, "printed ") == 0) VERIF_ASSERT(out.find("<<out " + r.events[k].substr(8) + ">>") != std::string::npos, "C20: output held back while the console was locked is shown afterwards, none of it lost");
+  verif_reach(r.rc == 0 ? "success" : "failure"); if (out.find("<<out ") != std::string::npos) verif_reach("output-shown");
+  verif_obs((long)out.size());
+  return 0;
+}
 #elif defined(MODE_DRYRUN)
 // ------------------------------------------------------------------------------------------------ C19: -n observes without disturbing, and tells the truth
 static std::string tree_snapshot() {
